@@ -27,8 +27,8 @@ import (
 
 type stubNet struct{ account string }
 
-func (stubNet) Start() {}
-func (stubNet) Stop()  {}
+func (stubNet) Start()                                                               {}
+func (stubNet) Stop()                                                                {}
 func (stubNet) SendMessage(xctx.XContext, *pb.XuperMessage, ...p2p.OptionFunc) error { return nil }
 func (stubNet) SendMessageWithResponse(xctx.XContext, *pb.XuperMessage, ...p2p.OptionFunc) ([]*pb.XuperMessage, error) {
 	return nil, nil
